@@ -1,15 +1,17 @@
 #!/bin/bash
-# Re-runs every stored seeded change against the current checks on a scratch copy of /repo (never touches /repo);
-# prints one line per seed and rewrites seeded/<id>/meta.json:check_result. usage: seedall.sh [tier] [id-prefix]
+# Re-runs every stored seeded change against the current checks on a scratch copy of /repo (never touches /repo, and
+# writes evidence/replays to a scratch output root, never to /verif/evidence); prints one line per seed and rewrites
+# seeded/<id>/meta.json:check_result. usage: seedall.sh [tier] [id-prefix]
 tier=${1:-quick}; pre=${2:-}
 export GOFLAGS=-mod=mod GOPROXY=off GOSUMDB=off GOTOOLCHAIN=local
 cd /verif
+[ bin/symgo -nt engine/main.go ] || (cd engine && go build -o ../bin/symgo .)
 for d in seeded/${pre}*/; do
   id=$(basename $d); prop=${id%-*}
-  scratch=/tmp/repo_seed_$$
-  rm -rf $scratch; cp -r /repo $scratch; rm -rf $scratch/.git
+  scratch=/tmp/repo_seed_$$; out=/tmp/seedout_$$
+  rm -rf $scratch $out; cp -r /repo $scratch; rm -rf $scratch/.git
   (cd $scratch && patch -p1 -s < /verif/$d/patch.diff) || { echo "$id APPLY-FAILED"; rm -rf $scratch; continue; }
-  timeout 1800 ./bin/symgo -repo $scratch -verif /verif -prop $prop -tier $tier > /tmp/seedall_$id.log 2>&1; rc=$?
+  timeout 1800 ./bin/symgo -repo $scratch -verif /verif -out $out -prop $prop -tier $tier > /tmp/seedall_$id.log 2>&1; rc=$?
   v=$(grep -c "^VIOLATION" /tmp/seedall_$id.log)
   first=$(grep -m1 "^VIOLATION" /tmp/seedall_$id.log | sed 's/.*replays\///' | cut -c1-120)
   echo "$id exit=$rc violations=$v $first"
@@ -20,6 +22,5 @@ m=json.load(open(d+'/meta.json'))
 m['check_result']=("caught" if rc=='1' else "MISSED" if rc=='0' else "inconclusive (exit 2)")+" by ./check (%s tier): exit=%s, %s VIOLATION line(s), first: %s"%(tier,rc,v,first)
 json.dump(m,open(d+'/meta.json','w'),indent=1)
 PY
-  rm -rf $scratch
+  rm -rf $scratch $out
 done
-git -C /verif checkout -q -- evidence 2>/dev/null
